@@ -6,6 +6,7 @@ import (
 	"regexp"
 	"sort"
 	"strings"
+	"time"
 )
 
 const (
@@ -20,6 +21,8 @@ const (
 	clPanic     = "malformed input never crashes (no panic)"
 	clWedge     = "never wedges: the handler returns once the connection is gone"
 	clReuse     = "a duplicate-id close (4409) is sent only for an id that is still active"
+	clMalformed = "a frame that is not exactly one JSON document is never acted upon"
+	clReadWedge = "read failures never wedge the connection: after persistent read errors the handler gives up within the read-error time-out, terminates running operations and closes"
 )
 
 type finding struct {
@@ -149,16 +152,49 @@ func accept(p proto, log []ev, panicMsg string) *verdict {
 		add(i, clReuse, "subscribe re-using a terminated id is refused", r.class, "reuse|"+r.class,
 			fmt.Sprintf("the server had sent its terminal message for id %q (%s); the client re-used the id, which is a new operation, but no execution was started for it (answered as a duplicate / ignored)", r.id, r.class))
 	}
+	malCause := "client " + kNonJSON // cause of everything recorded in the step that delivers a malformed frame
+	malClass := ""
 	for i, e := range log {
+		if !e.Post && e.Cause == malCause && malClass != "" {
+			// the step of a frame that is not one JSON document: the only admissible reactions are
+			// the close (graphql-transport-ws) resp. the id-less error / connection_error (graphql-ws)
+			acted := ""
+			switch e.K {
+			case "xget":
+				acted = "executor requested"
+			case "xexec":
+				acted = "execution started"
+			case "s":
+				if !(p == protoLegacy && (e.Type == "connection_error" || (e.Type == "error" && e.ID == ""))) {
+					acted = canonType(p, e.Type) + " written"
+				}
+			}
+			if acted != "" {
+				add(i, clMalformed, acted+" in reaction to the frame", malClass, "malformed|"+malClass,
+					fmt.Sprintf("the frame is not one JSON document (%s) but the server acted on it: %s", malClass, e.String()))
+			}
+		}
 		if e.Post {
 			// nothing reaches the wire after the close: counted, not judged (A.1)
 			v.nj("attempt_after_close:" + e.K)
 			continue
 		}
 		switch e.K {
+		case "readhorizon":
+			if phase != phClosed {
+				add(i, clReadWedge, "handler still reading after the horizon of failed reads", "connection still served", "read wedge",
+					fmt.Sprintf("%d reads failed in a row over %v of virtual time (read-error time-out %v) and the handler neither returned nor closed the connection", readHorizon, time.Duration(readHorizon)*readFailDur, readErrTimeOut))
+			}
 		case "c":
 			checkPendingClose(i)
 			checkReuse(i)
+			malClass = ""
+			if e.Type == kNonJSON {
+				malClass = "not JSON at all"
+				if e.Lead != "" {
+					malClass = "trailing content after a valid " + e.Lead + " message"
+				}
+			}
 			switch e.Type {
 			case kInit:
 				if p == protoTransport {
